@@ -386,11 +386,13 @@ def r11_5(ctx, rep):
             order = []
             p = getattr(node, "_parent", None)
             chain = []
+            from ..pyutil import inlined as _inl
             while p is not None and p is not fn:
+                # iterables are compared after resolving explanatory temporaries (`n = len(f.values)` ... `range(n)`)
                 if isinstance(p, ast.For):
-                    chain.append(norm(p.iter))
+                    chain.append(norm(_inl(p.iter, fn.body)))
                 if isinstance(p, (ast.ListComp, ast.GeneratorExp)):
-                    chain.extend(reversed([norm(g.iter) for g in p.generators]))
+                    chain.extend(reversed([norm(_inl(g.iter, fn.body)) for g in p.generators]))
                 p = getattr(p, "_parent", None)
             order = list(reversed(chain))
             it = [i for i, x in enumerate(order) if x.startswith("range(len(") and x.endswith(".values))")]
